@@ -27,6 +27,16 @@ import (
 
 const verifRoot = "/verif"
 
+// outRoot is where evidence, replays and work directories go: /verif, unless VERIF_OUT is set
+// (used by the self-test driver, which runs checks against scratch copies of the library in
+// parallel with normal runs and must not overwrite the registered evidence files).
+var outRoot = func() string {
+	if d := os.Getenv("VERIF_OUT"); d != "" {
+		return d
+	}
+	return verifRoot
+}()
+
 func main() {
 	if len(os.Args) < 2 {
 		fmt.Fprintln(os.Stderr, "usage: vcheck run|worker|replay …")
@@ -247,7 +257,7 @@ func runParent(args []string) int {
 		return 2
 	}
 	start := time.Now()
-	workdir := filepath.Join(verifRoot, "work", fmt.Sprintf("%s-%s-%d", *prop, tier, os.Getpid()))
+	workdir := filepath.Join(outRoot, "work", fmt.Sprintf("%s-%s-%d", *prop, tier, os.Getpid()))
 	_ = os.MkdirAll(workdir, 0o755)
 	if !*keep {
 		defer os.RemoveAll(workdir)
@@ -605,7 +615,7 @@ func (m *merge) finish(start time.Time, workdir string) int {
 		perAspect[w.Aspect]++
 		written++
 		b, _ := json.MarshalIndent(w, "", " ")
-		dir := filepath.Join(verifRoot, "replays", m.prop)
+		dir := filepath.Join(outRoot, "replays", m.prop)
 		_ = os.MkdirAll(dir, 0o755)
 		p := filepath.Join(dir, fmt.Sprintf("%016x.json", core.Digest(b)))
 		_ = os.WriteFile(p, b, 0o644)
@@ -704,8 +714,8 @@ func (m *merge) finish(start time.Time, workdir string) int {
 		"violations":  int64(m.violCount),
 	}
 	b, _ := json.MarshalIndent(ev, "", " ")
-	_ = os.MkdirAll(filepath.Join(verifRoot, "evidence"), 0o755)
-	if err := os.WriteFile(filepath.Join(verifRoot, "evidence", m.prop+".json"), b, 0o644); err != nil {
+	_ = os.MkdirAll(filepath.Join(outRoot, "evidence"), 0o755)
+	if err := os.WriteFile(filepath.Join(outRoot, "evidence", m.prop+".json"), b, 0o644); err != nil {
 		fmt.Println("HARNESS-ERROR cannot write evidence:", err)
 		return 2
 	}
@@ -765,7 +775,7 @@ func runReplay(args []string) int {
 		fmt.Println(w.Detail["report"])
 		return 1
 	}
-	workdir := filepath.Join(verifRoot, "work", fmt.Sprintf("replay-%d", os.Getpid()))
+	workdir := filepath.Join(outRoot, "work", fmt.Sprintf("replay-%d", os.Getpid()))
 	_ = os.MkdirAll(workdir, 0o755)
 	defer os.RemoveAll(workdir)
 	job := shardJob{race: w.Race, shard: 0, nshards: 1}
